@@ -22,6 +22,7 @@ namespace detail {
         if (b == 0) return 80;          // virtual time passes with steps: every timed wait gives up eventually
         return (b - 1) % 6;             // give up after that many further scheduler steps
     }
+    constexpr long long UNTIL_NS = 1LL << 61;
     struct base_mutex {
         ::vrt::MutexCore core;
         base_mutex() { if (::vrt::rt().active) ::vrt::rt().mutexes.push_back(&core); }
@@ -92,6 +93,7 @@ namespace detail {
             ::vrt::Fiber& f = ::vrt::me();
             f.mutex_ops++;
             if (core.owner == f.id) ::vrt::fail("self-deadlock", "timed lock of a non-recursive mutex by its owner");
+            if (ns >= UNTIL_NS) { lock(); return true; }       // deadline effectively infinitely far away
             f.timeout_fired = false; f.timed = true; f.patience = 80;
             if (!core.can_acquire_excl()) { f.blocking_ops++; ::vrt::rt().res.blocked_events++; f.patience = draw_patience(); }
             f.pend = ::vrt::P_TLOCK; f.pm = &core;
@@ -146,6 +148,7 @@ namespace detail {
             ::vrt::Fiber& f = ::vrt::me();
             f.mutex_ops++;
             if (core.owner == f.id) ::vrt::fail("self-deadlock", "timed lock_shared by the exclusive owner");
+            if (ns >= UNTIL_NS) { lock_shared(); return true; }
             f.timeout_fired = false; f.timed = true; f.patience = 80;
             if (!core.can_acquire_shared()) { f.blocking_ops++; ::vrt::rt().res.blocked_events++; f.patience = draw_patience(); }
             f.pend = ::vrt::P_TLOCK_SHARED; f.pm = &core;
@@ -163,7 +166,16 @@ namespace detail {
         auto ns = ::std::chrono::duration_cast<::std::chrono::nanoseconds>(d).count();
         return ns > 0 ? (long long)ns : 1;
     }
-    constexpr long long UNTIL = 1LL << 61;        // absolute deadlines: duration unknown to the model
+    constexpr long long UNTIL = 1LL << 61;        // absolute deadline further than an hour away: the wait effectively never times out
+    // absolute deadlines are judged against the (real) clock they are expressed in: a deadline that lies more than an hour ahead makes
+    // the wait unbounded in the model, anything nearer is an ordinary timed wait of that length
+    template<class C, class D>
+    inline long long until_ns(const ::std::chrono::time_point<C, D>& tp) {
+        auto rem = tp - C::now();
+        if (rem > ::std::chrono::hours(1)) return UNTIL;
+        auto ns = ::std::chrono::duration_cast<::std::chrono::nanoseconds>(rem).count();
+        return ns > 0 ? (long long)ns : 0;
+    }
 }  // namespace detail
 
 struct mutex : private detail::base_mutex {
@@ -174,7 +186,7 @@ struct mutex : private detail::base_mutex {
 struct timed_mutex : private detail::base_mutex {
     using detail::base_mutex::lock; using detail::base_mutex::try_lock; using detail::base_mutex::unlock;
     template<class R, class P> bool try_lock_for(const ::std::chrono::duration<R, P>& d) { return timed_lock(detail::positive(d)); }
-    template<class C, class D> bool try_lock_until(const ::std::chrono::time_point<C, D>&) { return timed_lock(detail::UNTIL); }
+    template<class C, class D> bool try_lock_until(const ::std::chrono::time_point<C, D>& tp) { return timed_lock(detail::until_ns(tp)); }
     const ::vrt::MutexCore& vrt_core() const { return core; }
 };
 struct shared_mutex : private detail::base_mutex {
@@ -186,9 +198,9 @@ struct shared_timed_mutex : private detail::base_mutex {
     using detail::base_mutex::lock; using detail::base_mutex::try_lock; using detail::base_mutex::unlock;
     using detail::base_mutex::lock_shared; using detail::base_mutex::try_lock_shared; using detail::base_mutex::unlock_shared;
     template<class R, class P> bool try_lock_for(const ::std::chrono::duration<R, P>& d) { return timed_lock(detail::positive(d)); }
-    template<class C, class D> bool try_lock_until(const ::std::chrono::time_point<C, D>&) { return timed_lock(detail::UNTIL); }
+    template<class C, class D> bool try_lock_until(const ::std::chrono::time_point<C, D>& tp) { return timed_lock(detail::until_ns(tp)); }
     template<class R, class P> bool try_lock_shared_for(const ::std::chrono::duration<R, P>& d) { return timed_lock_shared(detail::positive(d)); }
-    template<class C, class D> bool try_lock_shared_until(const ::std::chrono::time_point<C, D>&) { return timed_lock_shared(detail::UNTIL); }
+    template<class C, class D> bool try_lock_shared_until(const ::std::chrono::time_point<C, D>& tp) { return timed_lock_shared(detail::until_ns(tp)); }
     const ::vrt::MutexCore& vrt_core() const { return core; }
 };
 
